@@ -14,6 +14,7 @@ import MW.Lemmas.ImportExt
 import MW.Lemmas.ImportJoinExt
 import MW.Lemmas.ImportReorgS
 import MW.Lemmas.ImportJoinReorg2
+import MW.Lemmas.ImportFull
 import MW.Lemmas.LedgerD2Ex
 namespace MW.Props.C07
 open MW MW.Model.Ledger MW.Model.Import MW.Lemmas.ImportPlan
@@ -947,6 +948,89 @@ def import_exact_moving_full : Prop :=
     (∀ h b, sys.node.chain[h]? = some b → AMap.get sys.s.sync h = some b.id) →
     Lemmas.Ledger.Inv { p := p, own := own, wallets := wallets, node := sys.node } sys.s sys.node.chain
 
+-- ------------------------------------------------------------------ stage 3: general histories
+
+open MW.Lemmas.ImportExact MW.Lemmas.ImportReorg MW.Lemmas.ImportJoin MW.Lemmas.Ledger in
+/-- **import_exact_full_good** — `import_exact_full` for WELL-FORMED histories, other wallets in the instance.
+    Events (`MW.Lemmas.ImportJoin.stepG`, the event semantics of `import_exact_full`: `stepG_is_stepEv`): a rescan batch
+    of any positive size (run while the wallet is not ready — the worker holds tasks for such wallets only), a
+    notification for ANY block of the node's current best chain (extension, or reorganisation above / at / below the
+    cursor), and a NODE MOVEMENT to any other chain that is not announced to the wallet at that moment (the next batch
+    meets the followed-chain check of fix D27: it is either put off, or it reads a part of the node's chain that is the
+    follower's own — `importStep_node_congr`).  Well-formed (`AllGoodG`): every chain the node adopts is hash-linked,
+    valid for the keystore table, starts at the genesis block `G0`, consists of blocks whose files the node has
+    (`known`; so block ids determine blocks) and is shorter than 2^64 − batch; a notified block is on the node's chain;
+    no known block is the genesis block's predecessor.  At the import moment the other keystores' wallets are ready
+    with their books in the store (C01's `Inv` without `w`), `w` has cursor 0 and balance 0, the follower is at the
+    node's tip.  THEN, whenever the wallet is done and the follower has caught up with the node, the store satisfies
+    C01's invariant `Inv` for the full keystore table and the node's chain and the unspent index is well-formed —
+    so EVERY wallet of the instance, the restored one included, reports exactly what `MW.Spec.Chain` says for the node's
+    chain: its unspent outputs (as a multiset, with height, maturity, confirmations, address) and, if ready, its
+    WalletBalance — which is what a wallet that watched live reports (C01).
+    The literal `import_exact_full` stays a type-checked `def`: it also quantifies over ill-formed node chains and
+    lets batches run on a READY wallet (where `asyncImport` computes with the done sentinel 2^64 − 1, see the
+    "done-wallet wrap" test), which the worker never does. -/
+theorem import_exact_full_good (batch : Nat) (hb : batch > 0) (p : Params) (own : Own) (wallets : List Wid) (w : Wid)
+    (hKN : KeysNodup own) (hw : w ∈ wallets) (G0 : Block) (sys0 : XSys) (evs : List GEv)
+    -- the import moment
+    (hI : Inv { p := p, own := own.filter (fun e => e.2.1 ≠ w), wallets := wallets, node := sys0.node } sys0.s sys0.node.chain)
+    (hAR : AllReady (own.filter (fun e => e.2.1 ≠ w)) (readyWallets sys0.s wallets))
+    (hne : (readyWallets sys0.s wallets).isEmpty = false) (hGt : G0.txs = [])
+    (hst : AMap.get sys0.s.status w = some ⟨some 0, false⟩) (hbal : AMap.get sys0.s.balance w = some 0)
+    (hU : KeysNodup sys0.s.unspent) (hv : sys0.v.best = tipMeta sys0.node.chain)
+    (hN0 : ChainFacts batch own G0 sys0.node.known sys0.node.chain)
+    (hp0 : ∀ x, AMap.get sys0.node.known x.id = some x → G0.prev ≠ x.id)
+    -- the history
+    (hgood : AllGoodG batch p own wallets w G0 sys0 evs)
+    -- at the end: done, and the follower has caught up with the node
+    (hdone : AMap.get (evs.foldl (stepG batch p own wallets w) sys0).s.status w = some ⟨none, false⟩)
+    (hbest : (evs.foldl (stepG batch p own wallets w) sys0).v.best.height + 1 =
+      (evs.foldl (stepG batch p own wallets w) sys0).node.chain.length)
+    (hsync : ∀ h b, (evs.foldl (stepG batch p own wallets w) sys0).node.chain[h]? = some b →
+      AMap.get (evs.foldl (stepG batch p own wallets w) sys0).s.sync h = some b.id)
+    -- the 32-bit size bounds of C01's observation theorems
+    (hlen : (evs.foldl (stepG batch p own wallets w) sys0).node.chain.length < 2 ^ 32) (hcb : p.cbMaturity < 2 ^ 32)
+    (hstk : ∀ x ∈ Spec.Chain.ledgerOf own (evs.foldl (stepG batch p own wallets w) sys0).node.chain,
+      ∀ f, x.cls = .stk f → f + 1 < 2 ^ 32)
+    (w' : Wid) (minConf : Nat) :
+    Inv { p := p, own := own, wallets := wallets, node := (evs.foldl (stepG batch p own wallets w) sys0).node }
+        (evs.foldl (stepG batch p own wallets w) sys0).s (evs.foldl (stepG batch p own wallets w) sys0).node.chain ∧
+    walletBalance (evs.foldl (stepG batch p own wallets w) sys0).s w minConf =
+      some (Spec.Chain.balance p own (evs.foldl (stepG batch p own wallets w) sys0).node.chain w minConf) ∧
+    ((coinsOf (evs.foldl (stepG batch p own wallets w) sys0).s w').map
+        (Spec.Chain.obsM (evs.foldl (stepG batch p own wallets w) sys0).s.syncedTo)).Perm
+      ((Spec.Chain.utxosOf own (evs.foldl (stepG batch p own wallets w) sys0).node.chain w').map
+        (Spec.Chain.obsS p ((evs.foldl (stepG batch p own wallets w) sys0).node.chain.length - 1))) := by
+  have hC0 : ChainOK { p := p, own := own, wallets := wallets, node := sys0.node } := ⟨hN0.valid, hN0.good.heights⟩
+  have hS := scanJ_fresh (c := { p := p, own := own, wallets := wallets, node := sys0.node }) (w := w) hKN hC0 hI hN0.gen hGt hbal
+  have hG := foldG_inv (p := p) (G0 := G0) hb hKN hw evs sys0 hp0 hgood
+    ⟨hN0, hU, sys0.node.chain, hN0,
+      Or.inl ⟨⟨some 0, false⟩, 0, hst, rfl, rfl, by have := hN0.good.length_pos; omega, scanJS_of_scanJ hS, hAR, hne⟩, hv⟩
+  obtain ⟨hInv, hUF⟩ := ginv_caught_up hG hdone hbest hsync
+  have hNF := hG.1
+  have H : ObsHyp { p := p, own := own, wallets := wallets, node := (evs.foldl (stepG batch p own wallets w) sys0).node }
+      (evs.foldl (stepG batch p own wallets w) sys0).s (evs.foldl (stepG batch p own wallets w) sys0).node.chain :=
+    ⟨hInv, hUF, hNF.valid, hNF.good.heights, hlen, hcb, hstk⟩
+  refine ⟨hInv, balance_correct H ?_ minConf, coins_perm H w'⟩
+  apply (ready_contains_iff _ wallets w).2
+  refine ⟨hw, ?_⟩
+  rw [hdone]; rfl
+
+open MW.Lemmas.ImportExact MW.Lemmas.ImportJoin in
+/-- the events of `stepG` are the events of `import_exact_full`'s `stepEv` (a batch: while the wallet is importing) -/
+theorem stepG_is_stepEv (batch : Nat) (p : Params) (own : Own) (wallets : List Wid) (w : Wid) (sys : Sys) :
+    (∀ b, let r := stepEv batch p own wallets w sys (.block b)
+          let x := stepG batch p own wallets w ⟨sys.node, sys.s, sys.v⟩ (.block b)
+          x.node = r.node ∧ x.s = r.s ∧ x.v = r.v) ∧
+    (∀ ch, let r := stepEv batch p own wallets w sys (.node ch)
+           let x := stepG batch p own wallets w ⟨sys.node, sys.s, sys.v⟩ (.node ch)
+           x.node = r.node ∧ x.s = r.s ∧ x.v = r.v) ∧
+    ((∃ k rm, AMap.get sys.s.status w = some ⟨some k, rm⟩) →
+      let r := stepEv batch p own wallets w sys .batch
+      let x := stepG batch p own wallets w ⟨sys.node, sys.s, sys.v⟩ .batch
+      x.node = r.node ∧ x.s = r.s ∧ x.v = r.v) :=
+  ⟨fun _ => ⟨rfl, rfl, rfl⟩, fun _ => ⟨rfl, rfl, rfl⟩, fun h => (stepX_is_stepEv batch p own wallets w sys default).2 h⟩
+
 /-- the regenerated constants have the shape the theorems assume (positive batch size and expiry window, the done
     sentinel is the top of uint64) -/
 theorem gen_tie : Gen.Handler.importBatch > 0 ∧ Gen.Handler.maxMemPoolExpire > 0 ∧
@@ -1428,5 +1512,67 @@ example : (let r := Ex6.evs.foldl (Lemmas.ImportReorg.stepR 1 Lemmas.Ledger.d2Ct
            (r.v.best, useWallet r.s ["W1", "W2"] "W1", walletBalance r.s "W1" 1, walletBalance r.s "W2" 1,
             (AMap.get r.s.blocks 2).map (·.2), (AMap.get r.s.blocks 3).map (·.2))) =
     (⟨3, "B3a"⟩, .ok, some ⟨0, 0, 0, 0⟩, some ⟨690, 690, 0, 0⟩, some ["C3", "T1"], some ["C4", "T2"]) := by rfl
+
+-- stage 3: the node moves to N = G–B1–B2a–B3a WITHOUT telling the wallet; the next batch of W1's rescan (cursor 1, top
+-- of the range 2) meets the followed-chain check and is put off; then the notification for B3a arrives (reorganisation
+-- above the cursor, W2's record of B2 rolled back); three more batches finish the rescan
+namespace Ex7
+open MW.Lemmas.Ledger
+def evs : List Lemmas.ImportJoin.GEv := [.batch, .node d2N, .batch, .block d2B3a, .batch, .batch, .batch]
+end Ex7
+
+open MW.Lemmas.ImportExact MW.Lemmas.ImportReorg MW.Lemmas.ImportJoin MW.Lemmas.Ledger in
+/-- every hypothesis of `import_exact_full_good` holds on this history: both wallets then report `Spec.Chain` of N -/
+example (minConf : Nat) :
+    walletBalance (Ex7.evs.foldl (stepG 1 d2Ctx.p Ex6.own6 ["W1", "W2"] "W1") Ex6.sys0).s "W1" minConf =
+      some (Spec.Chain.balance d2Ctx.p Ex6.own6 d2N "W1" minConf) := by
+  have hnode : (Ex7.evs.foldl (stepG 1 d2Ctx.p Ex6.own6 ["W1", "W2"] "W1") Ex6.sys0).node.chain = d2N := by rfl
+  obtain ⟨hI, hrw⟩ := ex6_invR
+  have hp0 : ∀ x, AMap.get d2Known x.id = some x → d2G.prev ≠ x.id := by
+    intro x hx
+    rcases d2Known_cases hx with rfl | rfl | rfl | rfl | rfl <;> decide
+  have hFS : ChainFacts 1 Ex6.own6 d2G d2Known d2S := ⟨d2GoodS, by decide, rfl, d2KnownS, by decide⟩
+  have hFN : ChainFacts 1 Ex6.own6 d2G d2Known d2N := ⟨d2GoodN, by decide, rfl, d2KnownN, by decide⟩
+  have hgood : AllGoodG 1 d2Ctx.p Ex6.own6 ["W1", "W2"] "W1" d2G Ex6.sys0 Ex7.evs :=
+    ⟨trivial, hFN, trivial, rfl, trivial, trivial, trivial, trivial⟩
+  have := (import_exact_full_good 1 (by decide) d2Ctx.p Ex6.own6 ["W1", "W2"] "W1"
+    (by unfold KeysNodup; decide) (by decide) d2G Ex6.sys0 Ex7.evs hI
+    (by
+      show AllReady _ (readyWallets (addW1 Ex6.sR) ["W1", "W2"])
+      rw [hrw]
+      intro a w' ch ha
+      rw [show (Ex6.own6.filter (fun e => e.2.1 ≠ "W1")) = [("X1", ("W2", false))] from rfl, AMap.get_cons] at ha
+      split at ha
+      · cases ha; rfl
+      · cases ha)
+    (by show (readyWallets (addW1 Ex6.sR) ["W1", "W2"]).isEmpty = false; rw [hrw]; rfl)
+    rfl
+    (by show AMap.get (AMap.put Ex6.sR.status "W1" _) "W1" = _; rw [AMap.get_put, if_pos rfl])
+    (by show AMap.get (AMap.put Ex6.sR.balance "W1" 0) "W1" = _; rw [AMap.get_put, if_pos rfl])
+    (by unfold KeysNodup; decide) rfl hFS hp0 hgood (by rfl) (by rfl)
+    (by
+      intro h b hb
+      rw [hnode] at hb
+      match h with
+      | 0 => simp [d2N] at hb; subst hb; rfl
+      | 1 => simp [d2N] at hb; subst hb; rfl
+      | 2 => simp [d2N] at hb; subst hb; rfl
+      | 3 => simp [d2N] at hb; subst hb; rfl
+      | (n + 4) => simp [d2N] at hb)
+    (by rw [hnode]; decide) (by decide)
+    (by
+      rw [hnode]
+      intro x hx f hf
+      have hall : ∀ y ∈ Spec.Chain.ledgerOf Ex6.own6 d2N, y.cls = Cls.std := by decide
+      rw [hall x hx] at hf; cases hf)
+    "W1" minConf).2.1
+  rw [hnode] at this
+  exact this
+example : (let r := Ex7.evs.foldl (Lemmas.ImportJoin.stepG 1 Lemmas.Ledger.d2Ctx.p Ex6.own6 ["W1", "W2"] "W1") Ex6.sys0
+           let r2 := [Lemmas.ImportJoin.GEv.batch, .node Lemmas.Ledger.d2N, .batch].foldl
+             (Lemmas.ImportJoin.stepG 1 Lemmas.Ledger.d2Ctx.p Ex6.own6 ["W1", "W2"] "W1") Ex6.sys0
+           (r.v.best, useWallet r.s ["W1", "W2"] "W1", walletBalance r.s "W2" 1,
+            (AMap.get r2.s.status "W1").map (·.synced), r2.v.best)) =
+    (⟨3, "B3a"⟩, .ok, some ⟨690, 690, 0, 0⟩, some (some 1), ⟨2, "B2"⟩) := by rfl
 
 end MW.Props.C07
